@@ -58,6 +58,7 @@ struct verif_ghost {
     const char* nfc_in;
     char* nfc_out;
     size_t nfc_ret;
+    char nfc_in_at_k;       /* str[g_k] as handed to u8_nfc (g_k < POLYSEED_STR_SIZE) */
 } G;
 #ifndef VERIF_HAVE_GK
 size_t g_k;                   /* arbitrary but fixed ghost index (never written) */
@@ -99,6 +100,7 @@ size_t g_k;                   /* arbitrary but fixed ghost index (never written)
 #define g_nfc_in G.nfc_in
 #define g_nfc_out G.nfc_out
 #define g_nfc_ret G.nfc_ret
+#define g_nfc_in_at_k G.nfc_in_at_k
 
 #define GHOST_ZERO (g_mz_count == 0 && g_rand_calls == 0 && g_time_calls == 0 \
     && g_alloc_calls == 0 && g_live == 0 && g_free_calls == 0 && g_kdf_calls == 0 \
@@ -181,6 +183,7 @@ static size_t stub_nfc(const char* str, polyseed_str norm) {
     g_nfc_calls++;
     g_nfc_in = str;
     g_nfc_out = norm;
+    if (g_k < POLYSEED_STR_SIZE && __CPROVER_r_ok(str, POLYSEED_STR_SIZE)) g_nfc_in_at_k = str[g_k];
     size_t r = stub_transform_effect(str, norm);
     g_nfc_ret = r;
     return r;
